@@ -1,5 +1,5 @@
 (** C09 — statements of the property, kept at full strength. Those still listed in NOT_PROVED of
-    lib/props/c09.py are unproved (none at present); the others are proved in
+    lib/props/c09.py are unproved (see the end of this file); the others are proved in
     Proofs/ConcMemLin.v, ConcMemLinEnf.v, ConcMemIds.v, ConcMemStays.v. They were first kept
     here at full strength; the forced-schedule correspondence check and the runner's
     linearizability oracle (the same [seq_exec]) test them on every run. Each has a sanity
@@ -102,11 +102,12 @@ Definition concmem_refines_qstep_stmt : Prop :=
                    (forall l, r <> RVisit l -> r' = r)) /\
       (forall mb, sget mb (q_store q) = x_box (getx mb s)).
 
-(** "Every operation completes" (audit item 5): the number of productive steps of any schedule is bounded, for
-    the memory-store model and for the file-store model. NOT PROVED (deadlock freedom says only that some party
-    can always move). Sketch: every step moves a program counter forward along an acyclic program; the loops are
-    the cap loop (bounded by the mailbox length), the enforcer's eviction loop (bounded by the book) and the
-    walk (bounded by the names listed); the book and the mailboxes hold at most one entry per delivery. *)
+(** "Every operation completes" (audit item 5): the number of productive steps of any schedule is bounded.
+    Memory-store model: PROVED in Proofs/ConcMemTerm.v (every step strictly decreases a measure; explicit bound
+    mem_step_bound).  File-store model: NOT PROVED (deadlock freedom says only that some party can always move).
+    Sketch for the file side: every step moves a program counter forward along an acyclic program; the walk's
+    remaining work is a polynomial in the numbers of directories of the three levels, and those grow only by a
+    delivery's mkdir step, of which there is at most one per delivery. *)
 Fixpoint productive (s : msys) (sched : list (who * nat)) : nat :=
   match sched with
   | [] => 0
